@@ -381,7 +381,14 @@ def all_patterns_found_rule(ctx, eng: str, rule: str) -> None:
             d = shapes.single_def(fn, tree.id)
             if d is not None and isinstance(d, ast.BinOp) and isinstance(d.op, ast.Sub) and p_patterns in {x.id for x in ast.walk(d.left) if isinstance(x, ast.Name)}:
                 complete = ~BF.var(a) if complete is None else complete | ~BF.var(a)
-    ctx.require(complete is not None, f"{fq}: no 'all patterns found' test recognised (set(patterns) == found / non-matched difference)")
+    if complete is None:
+        # no test compares the configured patterns with the found ones at all
+        ex0 = pc.reach(cfg.exit)
+        ctx.require(not ex0.is_false(), f"{fq}: no normal return")
+        ctx.bad(rule, f"{fq}: returns normally although a pattern was not found",
+                f"no test relates `{p_patterns}` to the set of found patterns (normal return when {ex0.drop_unused().to_dnf()}): a file in which one configured pattern has no match is "
+                f"rewritten and the update succeeds", loc=fn.loc(), what=f"{fq}: normal return implies every pattern was found")
+        return
     ex = pc.reach(cfg.exit)
     ctx.check(rule, ex.implies(complete) and not ex.is_false(),
               f"{fq}: normal return implies every pattern was found  [exit iff {ex.to_dnf()}]",
